@@ -7,6 +7,7 @@ import Driver.Ops.Envelope
 import Driver.Ops.Policy
 import Driver.Ops.Proxy
 import Driver.Ops.Reply
+import Driver.Ops.Server
 import Driver.Ops.Store
 open Slimta Slimta.Driver
 
@@ -21,6 +22,7 @@ def dispatch (line : String) : String :=
   | "policy" :: rest => policyOp rest
   | "proxy" :: rest => proxyOp rest
   | "reply" :: rest => replyOp rest
+  | "server" :: rest => serverOp rest
   | "store" :: rest => storeOp rest
   | _ => "bad-op"
 partial def loop (hin : IO.FS.Stream) (hout : IO.FS.Stream) : IO Unit := do
